@@ -72,6 +72,67 @@ def reanalyse_inlined(run, b):
     return C.computed_edges(edges) if edges is not None else None
 
 
+def conforms_up_to_site_order(spec, comp):
+    """Node names distinguish several call sites of the same (child, fn, mode) - `read`, `read#2`, `read#3` - by their order in the
+    source.  Swapping the branches of an `if` permutes those ordinals without changing the automaton, so a body that does not
+    conform as numbered is compared again under every renumbering of same-named sites (at most 24 variants); it conforms if one
+    of them does."""
+    import itertools
+    names = {x for e in comp for x in (e.src, e.dst) if not x.startswith(("EXIT", "ENTRY"))}
+    groups = {}
+    for n_ in names:
+        base = re.sub(r"#\d+$", "", n_)
+        groups.setdefault(base, set()).add(n_)
+    groups = {b_: sorted(v, key=lambda x: int(x.rsplit("#", 1)[1]) if "#" in x else 1) for b_, v in groups.items() if len(v) > 1}
+    if not groups:
+        return None
+    total = 1
+    for v in groups.values():
+        f_ = 1
+        for i in range(2, len(v) + 1):
+            f_ *= i
+        total *= f_
+    if total > 24:
+        return None
+    keys = sorted(groups)
+    for perms in itertools.product(*[list(itertools.permutations(groups[k])) for k in keys]):
+        ren = {}
+        for k, perm in zip(keys, perms):
+            for a, b_ in zip(groups[k], perm):
+                ren[a] = b_
+        if all(a == b_ for a, b_ in ren.items()):
+            continue
+        # longest names first, through placeholders, so that `read` does not rewrite the prefix of `read#2`
+        order = sorted(ren, key=len, reverse=True)
+
+        def rn(txt):
+            if not isinstance(txt, str):
+                return txt
+            for i, a in enumerate(order):
+                txt = re.sub(re.escape(a) + r"(?![#\w])", "\x00%d\x00" % i, txt)
+            for i, a in enumerate(order):
+                txt = txt.replace("\x00%d\x00" % i, ren[a])
+            return txt
+        comp2 = []
+        for e in comp:
+            e2 = C.Edge()
+            e2.src, e2.res, e2.dst = rn(e.src), e.res, rn(e.dst)
+            # in position descriptors and effects a node is named only inside `after(..)` / `before(..)`; the bare words `read`,
+            # `before`, `E` there are positions, not nodes
+            def rp(txt):
+                return re.sub(r"\(([^()]*)\)", lambda m: "(" + rn(m.group(1)) + ")", txt) if isinstance(txt, str) else txt
+            e2.pos = rp(e.pos) if isinstance(e.pos, str) else frozenset(rp(x) for x in e.pos)
+            e2.effects = tuple(rp(x) for x in e.effects)
+            e2.facts = e.facts
+            e2.line = getattr(e, "line", None)
+            e2.facts_sat = getattr(e, "facts_sat", None)
+            comp2.append(e2)
+        probs2, n2 = C.conforms(spec, comp2)
+        if not probs2:
+            return probs2, n2, comp2
+    return None
+
+
 def rule_contracts(prop, config="all", floor_key=None):
     run = RP.get_run(config)
     facts = run.facts
@@ -113,6 +174,11 @@ def rule_contracts(prop, config="all", floor_key=None):
                     if not probs2:
                         probs, n, comp = probs2, n2, comp2
                         r.info.setdefault("compared_after_inlining", []).append(u)
+        if probs:
+            alt = conforms_up_to_site_order(spec, comp)
+            if alt is not None:
+                probs, n, comp = alt
+                r.info.setdefault("compared_up_to_site_order", []).append(u)
         nedges += n
         r.obligations += n
         bad_keys = set()
